@@ -23,7 +23,7 @@ Record fenv := {
   fe_texts : list str;                          (* translations of gen_full_msgids, same order *)
   fe_legend_rows : Z; fe_legend_cols : Z;       (* size of the template's Legend sheet *)
   fe_summary_rows : Z; fe_summary_cols : Z;     (* size of the template's Summary sheet *)
-  fe_extra : list (assoc (str * str)) }.        (* per asset, same order as rp_assets: row id -> (unique_id, notes) *)
+  fe_extra : list (assoc (str * str)) }.        (* per asset, same order as rp_assets: 3 * row id + table -> (unique_id, notes) *)
 
 Record fflags := { ff_clears : bool; ff_guarded : bool; ff_single_by_value : bool }.
 Definition code_flags : fflags :=
@@ -165,8 +165,10 @@ Definition inout_name (a : str) : str := fmt1 (tr gen_full_msg_inout) a.
 Definition tax_name (a : str) : str := fmt1 (tr gen_full_msg_tax) a.
 
 Record actx := { ac_idx : Z; ac_name : str; ac_txs : txs; ac_c : computed; ac_extra : assoc (str * str) }.
-Definition uid_of (x : actx) (row : Z) : str := fst (aget_d ([], []) row (ac_extra x)).
-Definition notes_of (x : actx) (row : Z) : str := snd (aget_d ([], []) row (ac_extra x)).
+(** unique id / notes of a transaction: keyed by (table, row id) -- the texts belong to the transaction object, not to its id *)
+Definition extra_key (cls row : Z) : Z := 3 * row + cls.
+Definition uid_of (x : actx) (cls row : Z) : str := fst (aget_d ([], []) (extra_key cls row) (ac_extra x)).
+Definition notes_of (x : actx) (cls row : Z) : str := snd (aget_d ([], []) (extra_key cls row) (ac_extra x)).
 
 (** ----- In-Out sheet *)
 Definition in_field (x : actx) (k : nat) (t : intx) (_ : flink) (f : ffield) : payload :=
@@ -188,8 +190,8 @@ Definition in_field (x : actx) (k : nat) (t : intx) (_ : flink) (f : ffield) : p
   | F_in_fiat_with_fee => PNum (i_fiat_in_with_fee t)
   | F_taxable => yesno (in_is_taxable t)
   | F_blank => PEmpty
-  | F_uid => PStr (uid_of x (i_row t))
-  | F_notes => PStr (notes_of x (i_row t))
+  | F_uid => PStr (uid_of x 0 (i_row t))
+  | F_notes => PStr (notes_of x 0 (i_row t))
   | _ => bad
   end.
 
@@ -209,8 +211,8 @@ Definition out_field (x : actx) (k : nat) (t : outtx) (_ : flink) (f : ffield) :
   | F_out_fiat => PNum (o_fiat_out_no_fee t)
   | F_fiat_fee => PNum (o_fiat_fee t)
   | F_taxable => yesno (out_is_taxable t)
-  | F_uid => PStr (uid_of x (o_row t))
-  | F_notes => PStr (notes_of x (o_row t))
+  | F_uid => PStr (uid_of x 1 (o_row t))
+  | F_notes => PStr (notes_of x 1 (o_row t))
   | _ => bad
   end.
 
@@ -230,8 +232,8 @@ Definition intra_field (x : actx) (k : nat) (t : intratx) (_ : flink) (f : ffiel
   | F_x_fee_running => PNum (of_grid (aget_d 0 (x_row t) (cd_intra_running (ac_c x))))
   | F_fiat_fee => PNum (x_fiat_fee t)
   | F_taxable => yesno (intra_is_taxable t)
-  | F_uid => PStr (uid_of x (x_row t))
-  | F_notes => PStr (notes_of x (x_row t))
+  | F_uid => PStr (uid_of x 2 (x_row t))
+  | F_notes => PStr (notes_of x 2 (x_row t))
   | _ => bad
   end.
 
@@ -336,7 +338,7 @@ Definition det_field (x : actx) (lm : assoc Z) (k : nat) (d : drow) (lk : flink)
     | F_ev_pct => pnum_o (gl_event_pct ev (g_amt g))
     | F_ev_fiat => pnum_o (g_proceeds g)
     | F_ev_spot => PNum (of_grid (t_spot ev))
-    | F_ev_uid => PStr (uid_of x (t_row ev))
+    | F_ev_uid => PStr (uid_of x (t_class ev) (t_row ev))
     | F_ev_note => PStr (note (S (fst (fst (snd d)))) (snd (fst (snd d))) (g_amt g) (t_balance_change ev) name)
     | _ =>
       match g_lot g with
@@ -349,7 +351,7 @@ Definition det_field (x : actx) (lm : assoc Z) (k : nat) (d : drow) (lk : flink)
         | F_lot_fee => match gl_lot_pct ev (Some l) (g_amt g) with Some p => PNum (dmul (i_fiat_fee l) p) | None => bad end
         | F_lot_cost => pnum_o (g_cost g)
         | F_lot_spot => PNum (of_grid (i_spot l))
-        | F_lot_uid => PStr (uid_of x (i_row l))
+        | F_lot_uid => PStr (uid_of x 0 (i_row l))
         | F_lot_note =>
           match snd (snd d) with
           | Some (i, n) => PStr (note (S i) n (g_amt g) (in_crypto_balance_change l) name)
